@@ -185,6 +185,28 @@ theorem escape_detected (o c : Char) (src : List Char) (h : scanDepth o c src 0 
   have := key src [] rest 0 i j h hm hm'
   rw [hm', this]
 
+/-- **Text inside comments never influences the verdict of `_verify_no_close_delimiters`.**  Two sources whose lines agree
+after comment stripping (`l[:l.find('#')]`) and agree on the two lines the first element starts and ends on get the same
+verdict, for any element position, scan end and delimiter pair: whatever stands after a `#` on the lines before the
+element and on the lines between the element and the next one — commas, closing delimiters, quotes — is never scanned. -/
+theorem verify_comments_irrelevant (lines lines' : List Line) (e0Ln : Int) (e0Col e0EndLn e0EndCol endLn : Nat) (o c : Char)
+    (hmap : lines.map stripComment = lines'.map stripComment)
+    (h0 : lines.getD e0Ln.toNat [] = lines'.getD e0Ln.toNat [])
+    (h1 : lines.getD e0EndLn [] = lines'.getD e0EndLn []) :
+    verifyNoClose lines e0Ln e0Col e0EndLn e0EndCol endLn o c = verifyNoClose lines' e0Ln e0Col e0EndLn e0EndCol endLn o c := by
+  have hlen : lines.length = lines'.length := by simpa using congrArg List.length hmap
+  have htake : (lines.take e0Ln.toNat).map stripComment = (lines'.take e0Ln.toNat).map stripComment := by
+    rw [List.map_take, List.map_take, hmap]
+  have hrest : restLines ((lines.drop (e0EndLn + 1)).take (endLn + 1 - (e0EndLn + 1)))
+      = restLines ((lines'.drop (e0EndLn + 1)).take (endLn + 1 - (e0EndLn + 1))) := by
+    apply restLines_congr
+    rw [List.map_take, List.map_take, List.map_drop, List.map_drop, hmap]
+  simp only [verifyNoClose, hlen, htake, h0, h1, hrest]
+
+/-- a comment with a comma and a closing parenthesis between two elements changes nothing: `a\n# 2) second, optional\n, b` -/
+example : verifyNoClose ["a".toList, "# 2) second, optional".toList, ", b".toList] 0 0 0 1 2 '(' ')' = true
+    ∧ verifyNoClose ["a".toList, "# x, y".toList, "),(b".toList] 0 0 0 1 2 '(' ')' = false := by decide
+
 /-! ## location repair of an undelimited sequence (`_fix_undelimited_seq_parsed_delimited`, model `Pfst/SeqFix.lean`) -/
 
 section SeqFix
